@@ -15,6 +15,7 @@ import YashModel.Pipe.File
 import YashModel.Pipe.Wake
 import YashModel.Pipe.Chain
 import YashModel.Pipe.Ops
+import YashModel.Pipe.Lossy
 open YashModel YashModel.Pipe YashModel.Proto
 
 
@@ -37,6 +38,18 @@ def payload (n pat per nl : Nat) : List Byte :=
         if body - body % 3 ≤ i then 122
         else if (i / 3) % 10 = 9 then [10, 195, 169].getD (i % 3) 0
         else [230, 157, 177].getD (i % 3) 0
+      | 8 =>
+        -- wave 3, third pass: ill-formed UTF-8 of every kind, every 31 bytes (so that the sequences straddle the
+        -- PIPE_BUF / PIPE_SIZE boundaries): lone continuation, truncated 3- and 4-byte sequences, an overlong
+        -- form, a surrogate, a byte that cannot occur, and a well-formed 3-byte character
+        let j := i % 31
+        if j = 5 then 128 else if j = 9 then 230 else if j = 10 then 157
+        else if j = 15 then 192 else if j = 16 then 175
+        else if j = 20 then 237 else if j = 21 then 160 else if j = 22 then 128
+        else if j = 25 then 245
+        else if j = 27 then 240 else if j = 28 then 159 else if j = 29 then 152
+        else if j = 0 ∧ 0 < i then 230 else if j = 1 ∧ 1 < i then 157 else if j = 2 ∧ 2 < i then 177
+        else alpha 97 i 7
       | _ => alpha 97 i 7
 
 def kv (ws : List String) (k : String) : Option String :=
@@ -170,12 +183,15 @@ def runSh (ws : List String) : String :=
     | none => if kvNat ws "neg" != 0 then " st=1" else ""   -- `! pipeline`: success becomes 1
   let seed := kvNat ws "seed"
   let emitted := if emitsNewline src then p ++ [10] else p
+  -- the decoder of `expand_common`: general `from_utf8_lossy` (Lossy.lean) for the payloads with arbitrary
+  -- ill-formed sequences (pat=8, shapes without inner `$( )`), its 0xFF restriction otherwise
+  let dec : List Byte → List Byte := if kvNat ws "pat" == 8 then lossyGen else lossyFF
   let model := do
     let x ← flowModel cfg seed shape emitted
-    if isVar then pure (substValue (← transfer cfg (lcg (seed + 1)) 0 0 x)) else pure x
+    if isVar then pure (trimEnd 10 (dec (← transfer cfg (lcg (seed + 1)) 0 0 x))) else pure x
   let spec :=
     let x := flowSpec shape emitted
-    if isVar then specSubst 10 (lossyFF (specTransfer x)) else x
+    if isVar then specSubst 10 (dec (specTransfer x)) else x
   (match model with
     | some x => showFlow x ++ stTxt
     | none => "stuck") ++ "\t=" ++ showFlow spec ++ stTxt
